@@ -734,6 +734,9 @@ def run(S):
     from checks import C14
     C14.rule_lve(S)
     # mechanisms this property rests on (checks/shared.py)
+    # the library's own sessions obey the property too: nothing looked up inside one is used after its leave
+    from checks.C13 import rule_sess
+    rule_sess(S)
     from checks import shared
     shared.sessions(S)
     # 'keeps its contents': a stored value is never written in place (C15 R-IMM, R-ONE)
